@@ -220,6 +220,7 @@ func (cx *Ctx) checkErrReply(r *Report, rule, key string, fn *ssa.Function) int 
 
 func checkC10(cx *Ctx, r *Report) {
 	w, fx := cx.W, cx.Fx
+	cx.checkRecoverReports(r, cx.handlerScope())
 	r.Clauses = []string{
 		"error discipline at every storage call site and at every call of a module function / closure that can fail, in all code reachable from the routed handlers: the error is tested before anything else happens; the failing branch returns a non-nil error, or (in handlers and callbacks) performs exactly one error reply (HTTP >= 400, or a failed SAML response) and reaches no Success constructor, signing, persistence, user-info lookup or redirect",
 		"error callbacks of all three chains are error replies",
@@ -458,4 +459,63 @@ func (cx *Ctx) errDisciplineOfHandler(r *Report, hk string) {
 		return
 	}
 	cx.checkErrDiscipline(r, cx.W.sortedFuncs(cx.W.scopeOf(h)))
+}
+
+// checkRecoverReports: a fallible function that recovers from panics must be able to report the failure: after
+// recover() the function returns its result variables as they are - with unnamed results (or named ones the deferred
+// function does not set) that is a nil error together with zero values, i.e. "success" with nothing done.
+func (cx *Ctx) checkRecoverReports(r *Report, fns map[*ssa.Function]bool) {
+	w, fx := cx.W, cx.Fx
+	callsRecover := func(f *ssa.Function) bool {
+		if f == nil || f.Blocks == nil {
+			return false
+		}
+		for _, c := range callsIn(f) {
+			if b, ok := c.Common().Value.(*ssa.Builtin); ok && b.Name() == "recover" {
+				return true
+			}
+		}
+		return false
+	}
+	n := 0
+	for _, fn := range w.sortedFuncs(fns) {
+		res := fn.Signature.Results()
+		if res.Len() == 0 || !isErrorTypeT(res.At(res.Len()-1).Type()) {
+			continue
+		}
+		for _, b := range fn.Blocks {
+			for _, in := range b.Instrs {
+				d, ok := in.(*ssa.Defer)
+				if !ok {
+					continue
+				}
+				var tgt *ssa.Function
+				var mc *ssa.MakeClosure
+				switch v := d.Call.Value.(type) {
+				case *ssa.Function:
+					tgt = v
+				case *ssa.MakeClosure:
+					tgt, _ = v.Fn.(*ssa.Function)
+					mc = v
+				}
+				if !callsRecover(tgt) {
+					continue
+				}
+				n++
+				// the deferred closure sets the (named) error result
+				sets := false
+				if mc != nil && res.At(res.Len()-1).Name() != "" {
+					for _, st := range fx.info(tgt).stores {
+						if cell := fx.ownerCell(st.Addr); cell != nil && cell.Parent() == fn && cell.Comment == res.At(res.Len()-1).Name() && !isNilConst(st.Val) {
+							sets = true
+						}
+					}
+				}
+				r.Check(sets, "R-ERR", w.FuncKey(fn)+":recover", w.InstrPos(d), "the recovering deferred function sets the function's error result", w.FuncKey(fn)+" recovers from panics but cannot report them (its error result is unnamed or not set by the deferred function): after a recovered panic it returns a nil error with empty results, and the caller goes on as if the work had been done")
+			}
+		}
+	}
+	if n == 0 {
+		r.Ok("R-ERR", "#recover", "", "no fallible function on the handlers' paths recovers from panics")
+	}
 }
